@@ -132,6 +132,8 @@ class Ctx:
     def violation(self, kind, alg, case, witness):
         self.counters["violated"] += 1
         rec = {"property": self.prop, "kind": kind, "alg": alg, "case": plain(case), "witness": plain(witness)}
+        if getattr(self, "debug_logging", False):
+            rec["debug_logging"] = True       # the shard ran with DEBUG logging on (rv/worker.py); the replay switches it on again
         # every violation is classified here, so that capping the recorded ones per class can never hide a new one
         rec["known_finding"] = self._kf.classify(self.prop, rec, self._findings)
         vc = (alg, kind, rec["known_finding"] or "")
